@@ -1,1 +1,263 @@
-/-! Property theorems for C10 (stub: not built yet). -/
+import UsualProofs.C10.Script
+/-!
+# C10 — a single allocation failure (the k-th, for every k) is reported cleanly, corrupts and
+leaks nothing
+
+Property-level theorems only.  Models: `Usual/C10/{Alloc,Tree,Structs}.lean` — an allocator
+state `AS` carrying the set `fails` of request numbers made to fail, and for every modelled
+operation of cbtree, strpool, mdict, hashtab, heap, strlist, pg_parse_array, mbuf, slab, the cx
+tree allocator and the digest/HMAC contexts an `…A` function that makes its requests in the
+code's order and rolls back as the code does.  All statements quantify over the *whole* allocator
+state, so they hold for `fails = [k]` (the property's single fault, every `k`), for two faults,
+and for any other schedule.
+
+`Holds s o` : the allocator holds exactly the blocks `o` (as a multiset).
+`owned st`  : the blocks reachable from a structure (what its destroy function returns).
+-/
+namespace UsualProps.C10
+open Usual.C06 Usual.C10
+
+/-! ## the fault model -/
+
+/-- a request fails exactly when its number is in the schedule; a failed request changes
+    nothing but the request counter -/
+theorem request_fails_iff_scheduled (s : AS) :
+    ((allocS s).1 = none ↔ (s.count + 1) ∈ s.fails) ∧
+    ((allocS s).1 = none → (allocS s).2.live = s.live) ∧
+    (∀ b, (reallocS b s).1 = none ↔ (s.count + 1) ∈ s.fails) ∧
+    (∀ b, (reallocS b s).1 = none → (reallocS b s).2.live = s.live) := by
+  refine ⟨allocS_fails_iff s, ?_, fun b => reallocS_fails_iff b s, ?_⟩
+  · intro h
+    exact (allocS_none (s' := (allocS s).2) (by rw [← h])).1
+  · intro b h
+    exact (reallocS_none (b := b) (s' := (reallocS b s).2) (by rw [← h])).1
+
+-- non-vacuity: request 3 fails, request 2 does not
+example : (allocS { count := 2, fails := [3] }).1 = none ∧
+          (allocS { count := 1, fails := [3] }).1 = some 0 := by decide
+
+/-! ## per operation: failure is reported, all-or-nothing, and leaks nothing -/
+
+/-- **cbtree_insert**: `false` (node allocation failed, or key refused) ⇒ same tree, same
+    allocator holdings; `true` ⇒ exactly C06's insert on the tree, the new node is owned -/
+theorem cbtree_insert_fault_atomic (t t' : CB) (e : Entry) (s s' : AS) (ok : Bool)
+    (h : cbInsertA t e s = ((ok, t'), s')) :
+    (ok = false → t' = t ∧ s'.live = s.live) ∧
+    (ok = true → Usual.C06.insert t.eroot e = some t'.eroot ∧
+       ∀ o, Holds s (t.owned ++ o) → Holds s' (t'.owned ++ o)) := by
+  constructor
+  · intro hf; subst hf; exact cbInsertA_false h
+  · intro ht; subst ht; exact ⟨(cbInsertA_true h).1, (cbInsertA_true h).2.2⟩
+
+-- non-vacuity: inserting "b" into {"a"} with the next request failing
+example : cbInsertA { hdr := 0, root := some (.leaf ⟨[0x61], 1⟩) } ⟨[0x62], 2⟩
+            { nextId := 1, live := [0], count := 1, fails := [2] } =
+          ((false, { hdr := 0, root := some (.leaf ⟨[0x61], 1⟩) }),
+            { nextId := 1, live := [0], count := 2, fails := [2] }) := by decide
+
+/-- **strpool_get**: NULL ⇒ pool unchanged (count, reference counts, tree) and the `PStr`
+    obtained in this call was released again -/
+theorem strpool_get_fault_atomic (p p' : SP) (k : Key) (s s' : AS)
+    (h : spGetA p k s = ((none, p'), s')) : p' = p ∧ s'.live = s.live := spGetA_null h
+
+/-- **strpool_get**, success: every block obtained is owned by the pool -/
+theorem strpool_get_owned (p p' : SP) (k : Key) (id : Id) (s s' : AS)
+    (h : spGetA p k s = ((some id, p'), s')) :
+    ∀ o, Holds s (p.owned ++ o) → Holds s' (p'.owned ++ o) := (spGetA_some h).2.2
+
+-- non-vacuity: the PStr is obtained (request 3), the tree node is refused (request 4): rolled back
+example :
+    let p : SP := { hdr := 0, tree := { hdr := 1, root := some (.leaf ⟨[0x61], 2⟩) }, count := 1, refs := [(2, 1)] }
+    let s : AS := { nextId := 3, live := [2, 1, 0], count := 3, fails := [5] }
+    (spGetA p [0x62] s).1 = (none, p) ∧ (spGetA p [0x62] s).2.live = [2, 1, 0] ∧
+    (spGetA p [0x62] s).2.count = 5 := by decide
+
+/-- **strpool_create / mdict_new**: the struct is released when the tree cannot be created -/
+theorem create_fault_no_leak (s s' : AS) :
+    (spCreateA s = (none, s') → s'.live = s.live) ∧ (mdNewA s = (none, s') → s'.live = s.live) :=
+  ⟨spCreateA_none, mdNewA_none⟩
+
+example : (spCreateA { fails := [2] }).1 = none ∧ (spCreateA { fails := [2] }).2.live = [] ∧
+          (spCreateA { fails := [2] }).2.count = 2 := by decide
+
+/-- **mdict_put_str** (with F10): `false` ⇒ dict unchanged, and value copy, key copy and element
+    obtained in this call were all released -/
+theorem mdict_put_fault_atomic (d d' : MD) (k : Key) (v : Val) (s s' : AS)
+    (h : mdPutA d k v s = ((false, d'), s')) : d' = d ∧ s'.live = s.live := mdPutA_false h
+
+/-- **mdict_put_str**, success on a valid dict: the dict stays valid and owns every block -/
+theorem mdict_put_owned (d d' : MD) (k : Key) (v : Val) (s s' : AS)
+    (h : mdPutA d k v s = ((true, d'), s')) (hv : d.ok) (hk : NoTrailingZero k) :
+    d'.ok ∧ ∀ o, Holds s (d.owned ++ o) → Holds s' (d'.owned ++ o) :=
+  ⟨mdPutA_ok h hv hk, (mdPutA_true h hv.linked).2.2⟩
+
+-- non-vacuity: new key with value; the 3rd request of the call (the element) fails
+example :
+    let d : MD := { hdr := 0, tree := { hdr := 1 } }
+    let s : AS := { nextId := 2, live := [1, 0], count := 2, fails := [5] }
+    (mdPutA d [0x6b] (some [0x76]) s).1 = (false, d) ∧ (mdPutA d [0x6b] (some [0x76]) s).2.live = [1, 0] ∧
+    (mdPutA d [0x6b] (some [0x76]) s).2.count = 5 := by decide
+
+/-- **mdict_urldecode** is incremental: on failure the dict is the dict after the rounds that
+    completed, and the failing round left no trace — neither in the dict nor in the allocator
+    (decoded key, decoded value and element of that round were released).  Whatever happens, a
+    valid dict stays valid and owns every block still allocated. -/
+theorem mdict_urldecode_fault_prefix (fuel : Nat) (d d' : MD) (src : List UInt8) (s s' : AS)
+    (h : mdUrldecodeA fuel d src s = ((false, d'), s')) :
+    ∃ src1 s1, UrlSteps d src s d' src1 s1 ∧ mdUrlPairA d' src1 s1 = (none, s') ∧
+      s'.live = s1.live := mdUrldecodeA_false h
+
+theorem mdict_urldecode_owned (fuel : Nat) (d d' : MD) (src : List UInt8) (ok : Bool) (s s' : AS)
+    (h : mdUrldecodeA fuel d src s = ((ok, d'), s')) (hv : d.ok) (hk : urlKeysOk fuel src) :
+    d'.ok ∧ ∀ o, Holds s (d.owned ++ o) → Holds s' (d'.owned ++ o) :=
+  ⟨mdUrldecodeA_ok h hv hk, (mdUrldecodeA_holds h hv.linked).2.2⟩
+
+-- non-vacuity: "a=1&b=2", the key of the second pair cannot be decoded: first pair stays
+example :
+    let d : MD := { hdr := 0, tree := { hdr := 1 } }
+    let s : AS := { nextId := 2, live := [1, 0], count := 2, fails := [6] }
+    let r := mdUrldecodeA 8 d [0x61, 0x3d, 0x31, 0x26, 0x62, 0x3d, 0x32] s
+    r.1.1 = false ∧ r.1.2.pairs = [([0x61], some [0x31])] ∧ r.2.live.length = 5 := by decide
+
+/-- **hashtab insert** (`hashtab_lookup(.., true, ..)`): NULL ⇒ chain unchanged, nothing new
+    allocated; **hashtab_copy** (with F11): NULL ⇒ whatever had been built of the new chain is
+    released, the old chain is untouched -/
+theorem hashtab_fault_atomic (h h' : HT) (k v n : Nat) (s s' : AS) :
+    (htPutA h k v s = ((none, h'), s') → h' = h ∧ s'.live = s.live) ∧
+    (htCopyA h n s = (none, s') → ∀ o, Holds s o → Holds s' o) :=
+  ⟨htPutA_null, htCopyA_none⟩
+
+-- non-vacuity: copying 4 items into segments of size 2: the 2nd segment of the copy fails
+example :
+    let seg : HSeg := { id := 0, size := 8, used := 4, tab := [(8, 1), (1, 1), (2, 1), (3, 1), (0, 0), (0, 0), (0, 0), (0, 0)] }
+    let s : AS := { nextId := 1, live := [0], count := 1, fails := [3] }
+    (htCopyA [seg] 2 s).1 = none ∧ (htCopyA [seg] 2 s).2.live = [0] ∧ (htCopyA [seg] 2 s).2.count = 3 := by
+  decide
+
+/-- **heap_push / heap_reserve**: `false` ⇒ array pointer, capacity, contents unchanged -/
+theorem heap_fault_atomic (h h' : HP) (x n : Nat) (s s' : AS) :
+    (hpPushA h x s = ((false, h'), s') → h' = h ∧ s'.live = s.live) ∧
+    (hpReserveA h n s = ((false, h'), s') → h' = h ∧ s'.live = s.live) :=
+  ⟨hpPushA_false, hpReserveA_false⟩
+
+example :
+    let h : HP := { hdr := 0, data := some 1, allocated := 32, used := 32, elems := List.replicate 32 7 }
+    let s : AS := { nextId := 2, live := [1, 0], count := 2, fails := [3] }
+    (hpPushA h 5 s).1 = (false, h) ∧ (hpPushA h 5 s).2.live = [1, 0] := by decide
+
+/-- **strlist_append**: `false` ⇒ list unchanged, the string copy was released;
+    **pg_parse_array**: NULL ⇒ nothing obtained during the call remains allocated -/
+theorem strlist_fault_atomic (l l' : SL) (v : Option (List UInt8)) (vals : List (Option (List UInt8)))
+    (s s' : AS) :
+    (slAppendA l v s = ((false, l'), s') → l' = l ∧ s'.live = s.live) ∧
+    (pgParseA vals s = (none, s') → ∀ o, Holds s o → Holds s' o) :=
+  ⟨slAppendA_false, pgParseA_none⟩
+
+/-- **pg_parse_array**, success: the list holds exactly the element values and owns its blocks -/
+theorem pg_parse_array_owned (vals : List (Option (List UInt8))) (l : SL) (s s' : AS)
+    (h : pgParseA vals s = (some l, s')) :
+    l.values = vals ∧ ∀ o, Holds s o → Holds s' (l.owned ++ o) := pgParseA_some h
+
+-- non-vacuity: {a,NULL,b}: the item for "b" (7th request) fails: everything is released
+example :
+    let r := pgParseA [some [0x61], none, some [0x62]] { fails := [6] }
+    r.1.isNone ∧ r.2.live = [] ∧ r.2.count = 6 := by decide
+
+/-- **mbuf_make_room / mbuf_write**: `false` ⇒ buffer pointer, capacity and content unchanged -/
+theorem mbuf_fault_atomic (m m' : MB) (n : Nat) (b : List UInt8) (s s' : AS) :
+    (mbMakeRoomA m n s = ((false, m'), s') → m' = m ∧ s'.live = s.live) ∧
+    (mbWriteA m b s = ((false, m'), s') → m' = m ∧ s'.live = s.live) :=
+  ⟨mbMakeRoomA_false, mbWriteA_false⟩
+
+example :
+    let m : MB := { data := some 0, allocLen := 8, bytes := [1, 2, 3, 4, 5, 6, 7] }
+    let s : AS := { nextId := 1, live := [0], count := 1, fails := [2] }
+    (mbWriteA m [8, 9] s).1 = (false, m) ∧ (mbWriteA m [8, 9] s).2.live = [0] ∧
+    (mbWriteA m [8] s).1.1 = true := by
+  decide
+
+/-- **slab_alloc**: NULL ⇒ counters and fragment list unchanged;
+    **tree_alloc / tree_realloc / cx_new_tree(sub)**: NULL ⇒ tree unchanged (a block whose
+    realloc failed is linked into the list again); **hmac_new**: NULL ⇒ the digest context
+    obtained first was released -/
+theorem slab_cxtree_hmac_fault_atomic (b b' : SB) (t t' : CT) (sub : Option Id) (blk : Id) (s s' : AS) :
+    (sbAllocA b s = ((false, b'), s') → b' = b ∧ s'.live = s.live) ∧
+    (ctAllocA t sub s = ((none, t'), s') → t' = t ∧ s'.live = s.live) ∧
+    (ctReallocA t sub blk s = ((none, t'), s') → t' = t ∧ s'.live = s.live) ∧
+    (ctNewSubA t s = ((none, t'), s') → t' = t ∧ s'.live = s.live) ∧
+    (hmNewA s = (none, s') → s'.live = s.live) :=
+  ⟨sbAllocA_false, ctAllocA_none, ctReallocA_none, ctNewSubA_none, hmNewA_none⟩
+
+example : (hmNewA { fails := [2] }).1.isNone ∧ (hmNewA { fails := [2] }).2.live = [] ∧
+          (hmNewA { fails := [2] }).2.count = 2 := by decide
+
+/-! ## scripts: create, any operations, destroy — under every fault schedule -/
+
+/-- the per-operation facts above, packaged per module (`Laws`): creation failure leaves the
+    allocator as it was; a failed all-or-nothing operation returns the same state and the same
+    holdings; every operation keeps "valid, and every block still allocated is owned"; destroy
+    returns everything owned -/
+theorem modules_lawful :
+    Laws cbMod ∧ Laws spMod ∧ Laws mdMod ∧ (∀ n, Laws (htMod n)) ∧ Laws hpMod ∧ Laws slMod ∧
+    Laws mbMod ∧ (∀ n, Laws (sbMod n)) ∧ Laws ctMod ∧ Laws hmMod :=
+  ⟨cbLaws, spLaws, mdLaws, htLaws, hpLaws, slLaws, mbLaws, sbLaws, ctLaws, hmLaws⟩
+
+/-- **No leak, whatever fails.**  For every lawful module, every operation list and EVERY
+    allocator state — i.e. every set of failing request numbers — after create / operations /
+    destroy the allocator holds exactly what it held before. -/
+theorem script_any_faults_no_leak (M : Mod) (L : Laws M) (ops : List M.Op) (s : AS) (o : List Id)
+    (h : Holds s o) (hp : ∀ st s1, M.create s = (some st, s1) → PreOk M ops st s1) :
+    Holds (script M ops s) o := script_balanced L ops s o h hp
+
+/-- **Single fault**: for every script and every index `k` of the request made to fail, after
+    the failing operation, continued use and destroy, nothing is allocated. -/
+theorem script_single_fault (M : Mod) (L : Laws M) (ops : List M.Op) (k : Nat)
+    (hp : ∀ st s1, M.create { fails := [k] } = (some st, s1) → PreOk M ops st s1) :
+    (script M ops { fails := [k] }).live = [] :=
+  script_live_empty L ops _ rfl hp
+
+/-- **Double fault** (and any longer schedule): the same lemmas compose. -/
+theorem script_double_fault (M : Mod) (L : Laws M) (ops : List M.Op) (k₁ k₂ : Nat)
+    (hp : ∀ st s1, M.create { fails := [k₁, k₂] } = (some st, s1) → PreOk M ops st s1) :
+    (script M ops { fails := [k₁, k₂] }).live = [] :=
+  script_live_empty L ops _ rfl hp
+
+/-- **The structure stays usable with its previous contents**: a failed all-or-nothing
+    operation is a no-op for the structure — the rest of the script runs from the very state
+    the failed operation found. -/
+theorem failed_op_leaves_structure_usable (M : Mod) (L : Laws M) (op : M.Op) (ops : List M.Op)
+    (st st' : M.St) (s s' : AS) (ha : M.atomic op = true)
+    (hf : M.step op st s = ((false, st'), s')) :
+    st' = st ∧
+    runOps M (op :: ops) st s =
+      ((false :: (runOps M ops st s').1.1, (runOps M ops st s').1.2), (runOps M ops st s').2) :=
+  ⟨(L.step_fail op st s st' s' ha hf).1, failed_op_is_noop L op ops st st' s s' ha hf⟩
+
+/-- caller obligations that only depend on the operation (key preconditions) -/
+theorem preOk_of_forall (M : Mod) (ops : List M.Op) (h : ∀ op, op ∈ ops → ∀ st, M.pre st op)
+    (st : M.St) (s : AS) : PreOk M ops st s := by
+  induction ops generalizing st s with
+  | nil => trivial
+  | cons op ops ih =>
+    exact ⟨h op (by simp) st, ih (fun o ho => h o (by simp [ho])) _ _⟩
+
+-- non-vacuity: a strpool script; request 4 (the tree node for the 2nd string) fails; the
+-- failing get reports NULL, the script goes on, and in the end nothing is allocated
+example :
+    let ops := [SpOp.get [0x61], .get [0x62], .get [0x61], .get [0x63]]
+    (∀ op, op ∈ ops → ∀ st, spMod.pre st op) ∧
+    (spMod.create { fails := [4] }).1.isSome ∧
+    (script spMod ops { fails := [4] }).live = [] ∧
+    (script spMod ops { fails := [4] }).count = 6 := by
+  refine ⟨?_, by decide, by decide, by decide⟩
+  intro op hop st
+  simp only [List.mem_cons, List.not_mem_nil, or_false] at hop
+  rcases hop with rfl | rfl | rfl | rfl <;> simp [spMod, NoTrailingZero]
+
+-- non-vacuity: a double fault in an mdict script (value copy of the 1st put, element of the 2nd)
+example :
+    let ops := [MdOp.put [0x61] (some [0x31]), .put [0x62] none, .url [0x63, 0x3d, 0x64], .del [0x62]]
+    (script mdMod ops { fails := [3, 5] }).live = [] ∧ (script mdMod ops { fails := [3, 5] }).count = 8 := by
+  decide
+
+end UsualProps.C10
